@@ -144,6 +144,21 @@ def sf_inv(run, sf, cfg, base_f, base_g):
 
 def sf_havoc(run, sf, cfg):
     """Generic ScalarFunction state: every mutable field fresh.  Returns (base_f, base_g)."""
+    KNOWN = {"x", "g", "f", "f_updated", "g_updated", "H_updated", "nfev", "ngev", "_lowest_f", "_lowest_x", "n",
+             "nhev", "scaling_factor", "_update_fun_impl", "_update_grad_impl"}
+    for k, v in list(sf.f.items()):
+        if k in KNOWN:
+            continue
+        # a field the contract does not know (added by a change to the class): arbitrary value of the same kind
+        if isinstance(v, Arr):
+            sf.f[k] = fresh_vec(run, "sf_" + k, "local", "sf." + k)
+        elif isinstance(v, Sym) or (isinstance(v, (int, float)) and not isinstance(v, bool)):
+            sort = v.e.sort() if isinstance(v, Sym) else (I if isinstance(v, int) else R)
+            sf.f[k] = Sym(run.fresh("sf_" + k, sort))
+        elif isinstance(v, bool):
+            sf.f[k] = Sym(run.fresh("sf_" + k, B))
+        elif v is None:
+            sf.f[k] = fresh_vec(run, "sf_" + k, "local", "sf." + k) if k.startswith("_") or True else None
     sf.f["x"] = fresh_vec(run, "sf_x", "local", "sf.x")
     sf.f["g"] = fresh_vec(run, "sf_g", "user_result" if cfg.mode == "callable" else "local", "sf.g")
     sf.f["f"] = Sym(run.fresh("sf_f", R))
@@ -168,3 +183,125 @@ def sf_havoc(run, sf, cfg):
 def fd_observer(interp, phase, clo, bound, res):
     """Ghost: count gradient computations in FD modes (one per update_grad that reaches approx_derivative)."""
     pass
+
+
+# ------------------------------------------------------------------------------------------------- method contracts
+def sf_method_spec(method, cfg, old, av, k_stencil):
+    """Post-state of fun / grad / fun_and_grad as a function of the pre-state - ONE definition, used twice:
+    unit SF proves that the real methods satisfy it (obligations `ensures::post[...]`), callers (main, line_search)
+    apply it at call sites instead of the body (modular verification).
+    old: dict(fu, gu, xv, f, gv) z3 terms of the pre-state; av: value of the requested point."""
+    same = av == old["xv"]
+    fc = z3.And(old["fu"], same)
+    gc = z3.And(old["gu"], same)
+    callable_mode = cfg.mode == "callable"
+    one = lambda c: z3.If(c, 0, 1)       # noqa: E731
+    post = {}
+    if method == "fun":
+        post["fu"], post["gu"] = z3.BoolVal(True), gc
+        post["f"] = F(av)
+        post["g"] = old["gv"]
+        post["dF_direct"], post["dGrad"] = one(fc), z3.IntVal(0)
+        post["stencil"] = z3.IntVal(0)
+    elif method == "grad":
+        post["gu"] = z3.BoolVal(True)
+        post["g"] = cfg.gnum(av)
+        post["dGrad"] = one(gc)
+        if callable_mode:
+            post["fu"] = fc
+            post["f"] = old["f"]
+            post["dF_direct"], post["stencil"] = z3.IntVal(0), z3.IntVal(0)
+        else:
+            post["fu"] = z3.Or(fc, z3.Not(gc))
+            post["f"] = z3.If(gc, old["f"], F(av))
+            post["dF_direct"] = z3.If(gc, 0, one(fc))
+            post["stencil"] = z3.If(gc, 0, k_stencil)
+    else:
+        post["fu"], post["gu"] = z3.BoolVal(True), z3.BoolVal(True)
+        post["f"], post["g"] = F(av), cfg.gnum(av)
+        post["dF_direct"], post["dGrad"] = one(fc), one(gc)
+        post["stencil"] = z3.IntVal(0) if callable_mode else z3.If(gc, 0, k_stencil)
+    return post
+
+
+def sf_old_state(run, sf):
+    H = run.heap
+    return dict(fu=zbool(sf.f["f_updated"]), gu=zbool(sf.f["g_updated"]), xv=H[sf.f["x"].ref],
+                f=zreal(sf.f["f"]) if "f" in sf.f else z3.RealVal(0),
+                gv=H[sf.f["g"].ref] if "g" in sf.f else z3.Const("VEC0", Vec))
+
+
+def make_sf_method_contract(method):
+    def contract(it, clo, b, site):
+        """CONTRACT of ScalarFunction.<method>(x) as proved in unit SF, applied at a call site."""
+        run, dom = it.dom.run, it.dom
+        ctx = run.ghost["ctx"]
+        cfg = ctx.sfcfg
+        sf, x = b["self"], b["x"]
+        av = vec_of(dom, x)
+        name = f"scalar_function.ScalarFunction.{method}::call"
+        for lab, f in sf_inv(run, sf, cfg, ctx.base_f, ctx.base_g):
+            run.oblige(f"{name}::requires::inv::{lab}", f, props=("REQ", "C05"))
+        run.oblige(f"{name}::requires::inbox", inbox(av, cfg.lb, cfg.ub), props=("C02", "C16", "INBOX"),
+                   info=f"point handed to the user's objective/gradient must lie inside the box ({run.site})")
+        run.assume(inbox(av, cfg.lb, cfg.ub))
+        run.log.append(("sf_eval", method, av, run.site))
+        old = sf_old_state(run, sf)
+        k = run.fresh("stencil_k", I)
+        run.assume(k >= 0)
+        post = sf_method_spec(method, cfg, old, av, k)
+        raised = dom.user_may_raise and run.choose(f"sf.{method}:user_raises", 2) == 1
+        n_old, g_old = zint(sf.f["nfev"]), zint(sf.f["ngev"])
+        cF, cG = count(run, "fun"), count(run, "jac")
+        fd_old, st_old = zint(run.ghost.get("fd_calls", 0)), zint(run.ghost.get("stencil", 0))
+        if raised:
+            # exceptional exit: Inv(sf) holds, counters advanced by some amount not exceeding the normal one
+            from pyvc.sym import ExcV
+            base_f, base_g = sf_havoc(run, sf, cfg)
+            sf.f["scaling_factor"] = b["self"].f.get("scaling_factor")
+            run.assume(z3.And(zint(sf.f["nfev"]) >= n_old, zint(sf.f["ngev"]) >= g_old))
+            run.assume(zint(sf.f["nfev"]) - n_old == count(run, "fun") - cF)
+            if cfg.mode == "callable":
+                run.assume(zint(sf.f["ngev"]) - g_old == count(run, "jac") - cG)
+                run.assume(zint(run.ghost["fd_calls"]) == fd_old)
+            else:
+                run.assume(zint(sf.f["ngev"]) - g_old == zint(run.ghost["fd_calls"]) - fd_old)
+                run.assume(count(run, "jac") == cG)
+            for lab, f in sf_inv(run, sf, cfg, ctx.base_f, ctx.base_g):
+                if lab in ("f_current", "g_current"):
+                    run.assume(f)
+            exc = ExcV(None, (), tag=("user", f"fun|jac (inside sf.{method})", run.site, "k"))
+            run.ghost.setdefault("user_excs", []).append(exc)
+            raise PyExc(exc)
+        nx = run.alloc(av, "local")
+        run.tags[nx.ref] = "sf.x"
+        sf.f["x"] = nx
+        sf.f["f"] = Sym(z3.simplify(post["f"]))
+        ng = run.alloc(z3.simplify(post["g"]), "user_result" if cfg.mode == "callable" else "local")
+        sf.f["g"] = ng
+        sf.f["f_updated"] = wrap(post["fu"])
+        sf.f["g_updated"] = wrap(post["gu"])
+        sf.f["H_updated"] = Sym(run.fresh("H_upd", B))
+        dF = post["dF_direct"] + post["stencil"]
+        sf.f["nfev"] = wrap(n_old + dF)
+        run.ghost["calls"]["fun"] = wrap(cF + dF)
+        sf.f["ngev"] = wrap(g_old + post["dGrad"])
+        if cfg.mode == "callable":
+            run.ghost["calls"]["jac"] = wrap(cG + post["dGrad"])
+        else:
+            run.ghost["fd_calls"] = wrap(fd_old + post["dGrad"])
+            run.ghost["stencil"] = wrap(st_old + post["stencil"])
+        sf.f["_lowest_f"] = Sym(run.fresh("lowest_f", R))
+        s = sf.f["scaling_factor"]
+        if method == "fun":
+            return wrap(Fs(av, s)) if isinstance(s, Sym) else Sym(Fs(av, s))
+        gres = run.alloc(Vs(cfg.gnum(av), s), "local")
+        if method == "grad":
+            return gres
+        return (Sym(Fs(av, s)), gres)
+    return contract
+
+
+def install_sf_method_contracts(it):
+    for m in ("fun", "grad", "fun_and_grad"):
+        it.contracts[f"scalar_function.ScalarFunction.{m}"] = make_sf_method_contract(m)
